@@ -171,6 +171,7 @@ type Record struct {
 	SyncedBad   int   `json:"syncedBad"`
 	FinalTail   int   `json:"finalTail"`
 	TailWant    int   `json:"tailWant"`
+	HeadWant int `json:"headWant"`
 	Missing     []int `json:"missing"`
 	RestartHead int   `json:"restartHead"` // Head / Tail of a fresh Store on the same datastore after a clean Stop (-1: could not start)
 	RestartTail int   `json:"restartTail"`
